@@ -187,8 +187,12 @@ def execute(world: World, op, step_no, oracle=None, budget=clock.DEFAULT_BUDGET,
             if ent is None or ent[0] is not recv:
                 if len(world.iters) >= 4:
                     world.iters.clear()
-                ent = world.iters[id(recv)] = (recv, iter(recv))
+                ent = world.iters[id(recv)] = [recv, iter(recv), None]
                 world.count('iter_opened')
+            key = ctx.pre.key()
+            if ent[2] is not None and ent[2] != key:
+                world.count('probe:iterator_source_changed_between_nexts')
+            ent[2] = key
             try:
                 item = next(ent[1])
             except StopIteration:
